@@ -715,7 +715,9 @@ class LazyStackedTensorDict(TensorDictBase):
                         individual_masks = idx = idx.unbind(0)
                         selected_td_idx = range(len(self.tensordicts))
                         out.append(idx)
-                        split_dim = self.stack_dim - num_single
+                        # the dim of the indexed value along which the mask
+                        # distributes its entries: None items count, ints do not
+                        split_dim = i - num_single
                         mask_loc = i
                         mask_dim = cursor
                     else:
@@ -755,7 +757,7 @@ class LazyStackedTensorDict(TensorDictBase):
                             # relative_stack_dim = self.stack_dim - cursor - cursor_incr
                             individual_masks = idx = idx.unbind(0)
                             selected_td_idx = range(self.shape[cursor])
-                            split_dim = cursor - num_single
+                            split_dim = i - num_single
                             mask_loc = i
                             mask_dim = cursor
                     elif cursor < self.stack_dim:
